@@ -303,7 +303,15 @@ fn w3c_label_ok(l: &str) -> bool {
 /// RDF-star term with valid IRI, label, tag)?  Returns the reason when not.
 fn term_domain(t: &MT, pos: char) -> Result<(), String> {
     match t {
-        MT::Iri(i) => sophia_iri::Iri::new(i.as_str()).map(|_| ()).map_err(|e| format!("iri: {e}")),
+        MT::Iri(i) => sophia_iri::Iri::new(i.as_str()).map(|_| ()).map_err(|e| {
+            // the property quantifies over all IRIs: a string the RFC 3987 reference recogniser accepts
+            // must be accepted (REJECTED = failure), anything else is outside the domain
+            if crate::c09::rfc::is_iri(i) {
+                format!("REJECTED-iri: {i:?} is an IRI per RFC 3987 but Iri::new says {e}")
+            } else {
+                format!("iri: {e}")
+            }
+        }),
         MT::Bnode(b) => {
             if pos == 'p' {
                 return Err("blank node predicate".into());
@@ -314,7 +322,8 @@ fn term_domain(t: &MT, pos: char) -> Result<(), String> {
             if !w3c_label_ok(b) {
                 return Err(format!("label {b:?} not in BLANK_NODE_LABEL"));
             }
-            BnodeId::new(b.as_str()).map(|_| ()).map_err(|e| format!("label: {e}"))
+            // a label of the W3C BLANK_NODE_LABEL production must be accepted
+            BnodeId::new(b.as_str()).map(|_| ()).map_err(|e| format!("REJECTED-label: {b:?} matches BLANK_NODE_LABEL but BnodeId::new says {e}"))
         }
         MT::Lit(_, d) => {
             if pos != 'o' {
@@ -825,9 +834,32 @@ impl Check for C03 {
     }
     fn run(case: &Case, ctx: &mut Ctx) {
         let quads = &case.quads;
+        // the domain is "all BCP47 tags": a tag that is well-formed per RFC 5646 (harness recogniser)
+        // must be accepted by the toolkit's validator; its rejection is not an exclusion
+        for q in quads {
+            let mut atoms = vec![];
+            for t in q.terms() {
+                t.atoms(&mut atoms);
+            }
+            for t in atoms {
+                if let MT::Lang(_, tag) = t {
+                    if bcp47_well_formed(tag) {
+                        ctx.class("tag:bcp47-well-formed");
+                        if let Err(e) = crate::engine::catch(|| LanguageTag::new(tag.as_str()).map(|_| ())).and_then(|r| r.map_err(|e| e.to_string())) {
+                            ctx.fail("domain/bcp47-tag-rejected", format!("the well-formed BCP47 tag {tag:?} is rejected by LanguageTag::new: {e}"));
+                            return;
+                        }
+                    }
+                }
+            }
+        }
         for q in quads {
             if let Err(why) = quad_domain(q) {
                 let key = why.split(':').next().unwrap_or("other").to_string();
+                if let Some(k) = key.strip_prefix("REJECTED-") {
+                    ctx.fail(format!("domain/valid-{k}-rejected"), why);
+                    return;
+                }
                 ctx.class(format!("excluded/{key}"));
                 if std::env::var_os("VERIF_C03_DEBUG").is_some() {
                     eprintln!("excluded: {why} in {}", q.show());
